@@ -214,23 +214,26 @@ pub fn write_dso_debug_stream(
             if map.l_name > 0 {
                 // The string may end right before unmapped memory. Only `process_vm_readv`
                 // returns the readable part of a range in that case, the other read strategies
-                // fail; so read up to the next page boundary first, and beyond it only if the
-                // terminator has not been seen yet.
-                const NAME_MAX: usize = 256;
+                // fail; so read up to the next page boundary, and beyond it only as long as the
+                // terminator has not been seen. A path is at most PATH_MAX bytes long.
+                const PATH_MAX: usize = 4096;
                 const PAGE: usize = 4096;
-                let first_len = std::cmp::min(NAME_MAX, PAGE - map.l_name % PAGE);
-                let mut filename_data =
-                    PtraceDumper::copy_from_process(blamed_thread, map.l_name, first_len)?;
-                if first_len < NAME_MAX
-                    && filename_data.len() == first_len
-                    && !filename_data.contains(&b'\0')
-                {
-                    if let Ok(rest) = PtraceDumper::copy_from_process(
-                        blamed_thread,
-                        map.l_name + first_len,
-                        NAME_MAX - first_len,
-                    ) {
-                        filename_data.extend_from_slice(&rest);
+                let mut filename_data = Vec::new();
+                while filename_data.len() < PATH_MAX && !filename_data.contains(&b'\0') {
+                    let Some(addr) = map.l_name.checked_add(filename_data.len()) else {
+                        break;
+                    };
+                    let len = std::cmp::min(PATH_MAX - filename_data.len(), PAGE - addr % PAGE);
+                    match PtraceDumper::copy_from_process(blamed_thread, addr, len) {
+                        Ok(chunk) => {
+                            let complete = chunk.len() == len;
+                            filename_data.extend_from_slice(&chunk);
+                            if !complete {
+                                break;
+                            }
+                        }
+                        Err(e) if filename_data.is_empty() => return Err(e.into()),
+                        Err(_) => break,
                     }
                 }
 
